@@ -48,7 +48,7 @@ def module_has_float(m):
 
 def e2_job(ctx, name, module, script, opts=(), harness_kw=None, backends=('z3',), unwind=70, timeout=None,
            group=None, extra_flags=(), sample=None, translator=None, extra_sources=(), ub_checks=False,
-           pad=None, wasm_bytes=None, witnesses=('end of script',)):
+           pad=None, wasm_bytes=None, witnesses=('end of script',), page=None):
     """Returns Job, or a dict {'pre_violation': ...} when the translator itself fails."""
     d = ctx.dir('e2_' + name)
     wb = wasm_bytes if wasm_bytes is not None else wasmenc.encode(module, pad)
@@ -59,6 +59,10 @@ def e2_job(ctx, name, module, script, opts=(), harness_kw=None, backends=('z3',)
     hk = dict(harness_kw or {})
     if '-m' in opts:
         hk['prefix'] = True
+    defs = ['-DW2C2_VERIF=1']
+    if page:
+        hk['page'] = page
+        defs.append('-DW2C2_VERIF_PAGE_SIZE=%d' % page)
     h = Harness(module, 'm', script, **hk)
     src = h.gen_main()
     # SMT-LIB FloatingPoint has a single NaN: back ends that use the FP theory (cvc5) cannot decide
@@ -78,6 +82,6 @@ def e2_job(ctx, name, module, script, opts=(), harness_kw=None, backends=('z3',)
     smp.setdefault('w2c2_options', list(opts))
     smp.setdefault('wasm_hex', wb.hex() if len(wb) <= 160 else wb[:160].hex() + '...')
     smp.setdefault('script', script)
-    return Job(name, sources, incs=[os.path.join(REPO, 'w2c2'), d], flags=flags, backends=backends,
+    return Job(name, sources, incs=[os.path.join(REPO, 'w2c2'), d], defs=defs, flags=flags, backends=backends,
                unwind=unwind, timeout=timeout, group=group or name, sample=smp, witnesses=witnesses,
-               replay=dict(sources=sources, incs=[os.path.join(REPO, 'w2c2'), d], defs=[], asan=ub_checks))
+               replay=dict(sources=sources, incs=[os.path.join(REPO, 'w2c2'), d], defs=defs, asan=ub_checks))
